@@ -603,7 +603,7 @@ def stream_fit(run, seed):
     """one real fit through the wrapper; every fitted segment model is then shifted by its own offset 1000*2^k
     (added to all its hour-of-week coefficients): the shift seen in an hour's prediction names the model(s) it came from"""
     from opendsm.eemeter.models.hourly_caltrack import HourlyModel, HourlyBaselineData
-    terms, meta = [], []
+    terms, meta, wterms, wmeta = [], [], [], []
     rs = np.random.default_rng(seed)
     zone = "US/Pacific"
     idx = year_index(zone, 2023)
@@ -615,14 +615,54 @@ def stream_fit(run, seed):
     try:
         hm = HourlyModel().fit(HourlyBaselineData(df.copy(), is_electricity_data=True))
         inner = hm.model.model
-        # fitting side: the weights each segment was fitted with are the segment_time_series weights of its hours
+        # fitting side: the weights each segment model was fitted with (its design matrix, and the weights the WLS object
+        # holds) are its segment_time_series column on every hour -- zero weights included: a zero-weight row is inert in
+        # weighted least squares -- and, hour by hour, they are what the statement says (1 own month, 1/2 neighbours, 0 else)
         seg = hm.model_process_variables.segmentation
-        for name, dm in hm.model_process_variables.segmented_design_matrices.items():
-            w_fit = dm["weight"].dropna()
-            if not np.array_equal(w_fit.to_numpy(), seg.loc[w_fit.index, name].to_numpy()) or (w_fit <= 0).any():
+        dms = hm.model_process_variables.segmented_design_matrices
+        fit_month = local_fields(idx, zone)[:, 0]
+        wcols = {}
+        for sm in inner.segment_models:
+            name = sm.segment_name
+            dm = dms[name]
+            w_dm = dm["weight"].reindex(idx)
+            blank = w_dm.isna().to_numpy()                      # rows merge_features blanked (a NaN cell): dropped by the fit
+            same = np.array_equal(w_dm.to_numpy()[~blank], seg[name].reindex(idx).to_numpy()[~blank])
+            used = None
+            if sm.model is not None and hasattr(sm.model, "weights"):
+                labels = pd.DatetimeIndex(sm.model.data.row_labels)
+                used = pd.Series(np.asarray(sm.model.weights, dtype=float), index=labels)
+                same = same and np.array_equal(used.to_numpy(), seg[name].reindex(labels).to_numpy())
+                same = same and len(labels) == int((~dm.isna().any(axis=1)).sum())
+            if not same or blank.mean() > 0.05:
                 run.violation({"stream": "fit", "broken": "fit weights differ from the segmentation"},
                               "C18 segment %s was fitted with weights other than its segmentation column" % name,
-                              case={"stream": "fit", "seed": seed, "segment": name}, generator="c18.fit")
+                              case={"stream": "fit", "seed": seed, "segment": name},
+                              observation={"rows": int(len(dm)), "blank_rows": int(blank.sum()),
+                                           "wls_rows": None if used is None else int(len(used))}, generator="c18.fit")
+            wcols[name] = (used.reindex(idx) if used is not None else w_dm).to_numpy(dtype=float)
+        rows = {}
+        for m in range(1, 13):
+            sel = np.nonzero(fit_month == m)[0]
+            block = np.column_stack([wcols[n][sel] for n in wcols])
+            block = block[~np.isnan(block).any(axis=1)]
+            run.count(("fit-weights", m), True, n=len(block))
+            if len(block) == 0 or not (block == block[0]).all():
+                run.violation({"stream": "fit", "broken": "fit weights differ within a month"},
+                              "C18 fit: hours of month %d were not all fitted with the same weights" % m,
+                              case={"stream": "fit", "seed": seed, "month": m}, generator="c18.fit")
+                continue
+            rows[m] = {n: Fraction(float(w)) for n, w in zip(wcols, block[0])}
+        if len(rows) == 12:
+            for m, c, w, msg in partition_failures("three_month_weighted", rows)[:4]:
+                run.violation({"stream": "fit", "broken": "fit weights do not partition", "month": m, "segment": c},
+                              "C18 fitted model, weights in the regressions: %s" % msg,
+                              case={"stream": "fit", "seed": seed, "month": m, "segment": c, "weight": None if w is None else float(w)},
+                              observation={"row": {k: float(v) for k, v in rows[m].items()}}, generator="c18.fit")
+            for m in range(1, 13):
+                obs = coq_list(["(%s, %s)" % (coq_string(c), qlit(w)) for c, w in sorted(rows[m].items())])
+                wterms.append("(%s, %s, %s)" % (coq_string("three_month_weighted"), zlit(m), obs))
+                wmeta.append({"stream": "fit_weights", "segment_type": "three_month_weighted", "month": m, "seed": seed})
         ridx = year_index(zone, 2024)
         rdoy, rhod = ridx.dayofyear.values, ridx.hour.values
         rtemp = pd.Series(55 + 25 * np.sin((rdoy - 100) / 365 * 2 * np.pi) + 10 * np.sin((rhod - 9) / 24 * 2 * np.pi), index=ridx)
@@ -638,7 +678,7 @@ def stream_fit(run, seed):
         run.violation({"stream": "fit", "broken": "raises", "raised": type(e).__name__},
                       "C18 CalTRACK hourly fit/predict raised %s: %s" % (type(e).__name__, str(e)[:200]),
                       case={"stream": "fit", "seed": seed}, generator="c18.fit")
-        return "fit", terms, meta, "check_prediction"
+        return [("fit", terms, meta, "check_prediction")]
     _, own = own_columns(ridx, zone, "three_month_weighted")
     month = local_fields(ridx, zone)[:, 0]
     routing_check(run, "fit", zone, 2024, ridx, (shifted - base).tolist(), names, own, month, "three_month_weighted", terms, meta,
@@ -648,15 +688,27 @@ def stream_fit(run, seed):
     uniq = {}
     for t, mt in zip(terms, meta):
         uniq.setdefault(t, mt)
-    return "fit", list(uniq), list(uniq.values()), "check_prediction"
+    return [("fit", list(uniq), list(uniq.values()), "check_prediction"), ("fit_weights", wterms, wmeta, "check_weights")]
 
 
 # ------------------------------------------------------------------ main
 
+CASE_TYPES = {
+    "check_weights": "(string * Z * list (string * Q))%type",
+    "check_bins_float": "(list float * list (option float * list (option float)))%type",
+    "check_bins_q": "(list Q * list (option Q * list (option Q)))%type",
+    "check_how": "list (Z * Z * Z)",
+    "check_occupancy": "(list float * list float * list (bool * option bool * option float * list (option float) "
+                       "* list (option float)))%type",
+    "check_prediction": "(string * Z * option string)%type",
+}
+
+
 def compare(run, stream, terms, meta, check_fn, shard):
     if not terms:
         return
-    bad = run.coq_cases(stream, IMPORTS, "", terms, check_fn, shard=shard)
+    # the case type is stated: an empty endpoint list `[]` inside a literal has no type of its own
+    bad = run.coq_cases(stream, IMPORTS, "", terms, check_fn, shard=shard, case_type=CASE_TYPES[check_fn])
     if bad is None:
         run.proof_ok = False
         return
@@ -669,7 +721,7 @@ def compare(run, stream, terms, meta, check_fn, shard):
 
 def model_says(run, stream, mt):
     try:
-        if stream == "weights":
+        if stream in ("weights", "fit_weights"):
             return run.coq_eval(IMPORTS, "", "segment_weights %s %s" % (coq_string(mt["segment_type"]), zlit(mt["month"])))
         if stream in ("routing", "fit"):
             return run.coq_eval(IMPORTS, "", "prediction_segment %s %s" % (coq_string("three_month_weighted"), zlit(mt["month"])))
@@ -721,8 +773,10 @@ def main():
         run.log("TRANSLATOR FAILED: %s" % e)
     # step 1: proofs against the regenerated tables
     if ex is not None:
+        run.log("tables regenerated from %s; re-checking the theorems (waits for coq/.lock if another check is building)" % vlib.repo_root())
         run.check_proofs("Properties/C18.v", ["Proofs/CalTrackProofs.v"], generated=["Generated/CalTrackTables.v"])
         run.ensure_models(["Model/CalTrackRun.v", "Model/CasesLib.v"])
+        run.log("theorems re-checked: %d/%d" % (run.cov["discharged"], run.cov["obligations"]))
         check_tables(run, ex)
     only = None
     if run.replay:
@@ -749,7 +803,7 @@ def main():
         run.log("routing done")
     if st in (None, "fit"):
         for k in range(1 if only or run.quick() else 10):
-            results.append(stream_fit(run, (only or {}).get("seed", run.seed + k)))
+            results += stream_fit(run, (only or {}).get("seed", run.seed + k))
         run.log("fit done")
     if ex is not None:
         for stream, terms, meta, fn in results:
